@@ -104,6 +104,14 @@ def classify_flag_value(F, body, op, key_roots):
                         return 'head-copy-other-right', 'flag copied from the head of another right\'s chain'
                 return 'head-copy', 'copy of the flag at %s' % hc.name
             return 'copy-of-' + kind, 'flag copied from a pair that is not the chain head'
+    # the flag travelled in a tuple / Option (`get_latest(r).map(|(a, k)| (*a, ..))`): follow the field it sits in
+    srcs = copy_chain_sources(body, op, through_calls=(r'^std::ops::Try::branch$',) + tuple(IDENTITY_CALLS))
+    if srcs and all(s[0] == 'call' and s[1].is_(r'RevisionMap::<K, V>::get_latest$', r'LinkedList::<[^>]*>::front$')
+                    and flags.PAIR_TY in s[1].full and [x for x in s[2] if not str(x).startswith('@')][-1:] == ['0'] for s in srcs):
+        hc = srcs[0][1]
+        if key_roots is not None and len(hc.args) > 1 and hc.body is body and not (lib.roots_of(hc.body, hc.args[1]) & key_roots):
+            return 'head-copy-other-right', 'flag copied from the head of another right\'s chain'
+        return 'head-copy', 'copy of the flag at %s' % hc.name
     sl = backward_slice(body, [op], follow_mutarg=False)
     if sl.has_call(*flags.DESER):
         return 'wire', 'deserializer input'
@@ -388,3 +396,33 @@ def rename_keeps_status(ctx):
     (C03.rename-keeps-id)."""
     from . import c03
     c03.rename_keeps_id(ctx)
+
+
+@rule('C06', 'every-targeted-right-needs-a-public-key', configs=('default', 'p256'))
+def every_targeted_right_needs_a_public_key(ctx):
+    """'no public key ... allows encapsulating for a policy involving that attribute': the rights of a disabled attribute are absent
+    from every public key, and encapsulation refuses a target set as soon as ONE of its rights has no public key. In
+    `select_subkeys` the lookup of each targeted right turns a miss into an error that leaves the function — it is not filtered
+    away (a policy `FIN || MKG` with FIN disabled would otherwise quietly encapsulate for MKG alone)."""
+    F = ctx.F
+    key = 'core::MasterPublicKey::select_subkeys'
+    n = 0
+    for fb in lib.family_ext(F, key):
+        for g in fb.calls(r'^std::collections::HashMap::<[^>]*>::get$', r'^std::collections::HashMap::<[^>]*>::get_key_value$'):
+            if 'RightPublicKey' not in g.full:
+                continue
+            n += 1
+            ok, why = lib.absence_is_an_error(F, fb, g)
+            ctx.check(ok, key, 'a targeted right without public key is an error',
+                      'select_subkeys looks a targeted right up in the public key, but %s: encapsulation goes ahead for the rights that '
+                      'remain, and a policy involving a disabled attribute is accepted' % why, 'get(r).ok_or(..)? for every right',
+                      fb.where(g.ln))
+    ctx.floor(n, 1, 'public-key lookups in select_subkeys')
+
+
+@rule('C06', 'every-revision-walked')
+def every_revision_walked(ctx):
+    """'user keys keep opening the encapsulations made before': the old secrets a key keeps are tried by decapsulation whatever
+    the lengths of its other chains (C04.iter: the revision iterator does not stop at the first exhausted chain)."""
+    from . import c04
+    c04.iter_rule(ctx)
